@@ -100,6 +100,14 @@ def _escape(p) -> Escape:
                 if isinstance(n, ast.Subscript) and isinstance(n.value, ast.Name) and n.value.id == 'scope':
                     site_exempt[(comp.qual, ' '.join(short(n, 200).split()))] = \
                         'local dict filled by exec() of the generated source, not a request table'
+    # `next(it, default)`: with a default, exhaustion answers the default -- StopIteration (E5's primitive for builtins.next)
+    # does not leave the call.  The one-argument form stays a raising primitive.
+    mod = p.modules.get(ROUTER.rsplit('.', 1)[0])
+    for g in (mod.all_funcs if mod is not None else ()):
+        for n in walk_self(g.node):
+            if isinstance(n, ast.Call) and isinstance(n.func, ast.Name) and n.func.id == 'next' and len(n.args) == 2 and not n.keywords \
+                    and not any(isinstance(a, ast.Starred) for a in n.args) and p.resolve_callable(g, n.func) in ('builtins.next', None):
+                site_exempt[(g.qual, ' '.join(short(n, 200).split()))] = 'next() with a default does not raise StopIteration'
     return Escape(p, site_exempt=site_exempt)
 
 
@@ -4304,6 +4312,404 @@ def r18_field_pattern_classes(run):
                                   'is None and find(\'/archive/{when:dt("%Y(%m)")}\') answers the route with empty params')
 
 
+# ---------------------------------------------------------------------------
+# R19 the converter instance is built from the class handed to THIS call
+# ---------------------------------------------------------------------------
+
+INSTANTIATE = ROUTER + '._instantiate_converter'
+MEMO_DECORATORS = {'functools.lru_cache', 'functools.cache'}        # keyed by every argument, the class object included
+LOSSY_CLASS_ATTRS = {'__name__', '__qualname__', '__module__', '__doc__'}   # text about a class: two classes may share it
+LOSSY_CALLS = {'builtins.str', 'builtins.repr', 'builtins.hash', 'builtins.format', 'builtins.ascii'}
+STORE_READERS = {'get', 'setdefault', 'pop'}
+K_ID, K_TEXT, A_ID, UNREAD = 'klass', 'klass~', 'argstr', '?'
+
+
+class _ConvFlow:
+    """Provenance inside one function that is handed the converter class.
+    `roles` maps a parameter to what it stands for: {K_ID} the class object,
+    {A_ID} the argument text, {K_TEXT, ...} something merely computed from the
+    class (its name...).  `deps(e)` says what an expression determines: K_ID
+    only for the class object itself (through locals, tuples, conditional
+    expressions, id()), K_TEXT for text/hash renderings of it."""
+
+    def __init__(self, p, f: Func, roles: Dict[str, frozenset]):
+        self.p, self.f, self.roles = p, f, roles
+        self.cfg = cfg_of(f, p)
+        self.rd = H.ReachingDefs(self.cfg)
+
+    def nid(self, e) -> int:
+        return H.node_of_ast(self.cfg, e)
+
+    def def_values(self, d: int, name: str) -> Optional[List[ast.AST]]:
+        v = self.rd.def_value(d, name)
+        if v is not None:
+            return [v]
+        n = self.cfg.node(d)
+        if n.kind == 'stmt' and isinstance(n.ast, ast.Assign) and any(isinstance(t, ast.Name) and t.id == name for t in n.ast.targets):
+            return [n.ast.value]      # chained `name = store[key] = value`
+        out = [e.value for e in n.walk() if isinstance(e, ast.NamedExpr) and isinstance(e.target, ast.Name) and e.target.id == name]
+        return out or None
+
+    def name_defs(self, e: ast.Name, nid: int):
+        """[(def id, value expr | None)]; def id ENTRY for a parameter / free name."""
+        out = []
+        for d in sorted(self.rd.at(nid, e.id)):
+            if d == H.ENTRY_DEF:
+                out.append((d, None))
+                continue
+            vs = self.def_values(d, e.id)
+            if vs is None:
+                out.append((d, None))
+            else:
+                out.extend((d, v) for v in vs)
+        return out
+
+    @staticmethod
+    def _lossy(s: frozenset) -> frozenset:
+        return frozenset(K_TEXT if x == K_ID else x for x in s)
+
+    def deps(self, e, nid: int, seen=frozenset()) -> frozenset:
+        if e is None or isinstance(e, ast.Constant):
+            return frozenset()
+        if isinstance(e, ast.Name):
+            out: Set[str] = set()
+            for d, v in self.name_defs(e, nid):
+                if d == H.ENTRY_DEF:
+                    out |= self.roles.get(e.id, frozenset())
+                elif v is None:
+                    out.add(UNREAD)
+                elif (d, e.id) not in seen:
+                    out |= self.deps(v, d, seen | {(d, e.id)})
+            return frozenset(out)
+        if isinstance(e, ast.NamedExpr):
+            return self.deps(e.value, nid, seen)
+        if isinstance(e, (ast.Tuple, ast.BoolOp, ast.IfExp, ast.Starred)):
+            kids = e.elts if isinstance(e, ast.Tuple) else e.values if isinstance(e, ast.BoolOp) else \
+                [e.body, e.orelse, e.test] if isinstance(e, ast.IfExp) else [e.value]
+            out = set()
+            for k in kids:
+                out |= self.deps(k, nid, seen)
+            return frozenset(out)
+        if isinstance(e, ast.Dict):
+            out = set()
+            for k in e.keys:
+                out |= self._lossy(self.deps(k, nid, seen))
+            for v in e.values:
+                out |= self.deps(v, nid, seen)
+            return frozenset(out)
+        if isinstance(e, ast.Attribute):
+            s = self.deps(e.value, nid, seen)
+            if K_ID in s and e.attr not in LOSSY_CLASS_ATTRS:
+                return self._lossy(s) | {UNREAD}
+            return self._lossy(s)
+        if isinstance(e, ast.Call):
+            inner: Set[str] = set()
+            for a in list(e.args) + [k.value for k in e.keywords]:
+                inner |= self.deps(a, nid, seen)
+            q = self.p.resolve_expr(self.f.module, e.func, self.f)
+            if q == 'builtins.id' and len(e.args) == 1:
+                return frozenset(inner)        # the instance kept in the store keeps its class alive: id() stays unique
+            recv = self.deps(e.func.value, nid, seen) if isinstance(e.func, ast.Attribute) else frozenset()
+            text_method = isinstance(e.func, ast.Attribute) and e.func.attr in ('format', 'join', 'format_map') and K_ID not in recv
+            if K_ID in inner and not (q in LOSSY_CALLS or text_method):
+                return self._lossy(frozenset(inner) | recv) | {UNREAD}
+            return self._lossy(frozenset(inner) | recv)
+        if isinstance(e, (ast.JoinedStr, ast.FormattedValue, ast.BinOp)):
+            out = set()
+            for k in ast.iter_child_nodes(e):
+                if isinstance(k, ast.expr):
+                    out |= self.deps(k, nid, seen)
+            return self._lossy(frozenset(out))
+        out = set()
+        for k in ast.walk(e):
+            if isinstance(k, ast.Name):
+                out |= self.deps(k, nid, seen)
+        if K_ID in out:
+            out.add(UNREAD)
+        return self._lossy(frozenset(out))
+
+    # -- stores -----------------------------------------------------------------
+
+    def container(self, e, nid: int, depth=0) -> Tuple[Optional[str], List[Tuple[ast.AST, int]]]:
+        """(dotted text of the store an expression denotes, keys applied on the
+        way): self._cache -> ('self._cache', []); self._cache[klass] /
+        self._cache.setdefault(klass, {}) / a local bound once to one of them ->
+        ('self._cache', [klass]).  None: not a store outside this call."""
+        if depth > 6:
+            raise UnknownIdiom('%s: store expression %s nests too deep' % (self.f.qual, short(e, 60)))
+        if isinstance(e, ast.Name):
+            defs = self.name_defs(e, nid)
+            if all(d == H.ENTRY_DEF for d, _ in defs):
+                if e.id in self.roles or e.id in self.f.params():
+                    return None, []
+                return e.id, []                      # module-level / free name
+            if len(defs) != 1 or defs[0][1] is None:
+                raise UnknownIdiom('%s: local %s used as a store is bound more than once' % (self.f.qual, e.id))
+            d, v = defs[0]
+            if isinstance(v, (ast.Dict, ast.List, ast.Set)) or (isinstance(v, ast.Call) and isinstance(v.func, ast.Name)
+                                                               and v.func.id in ('dict', 'list', 'set') and not v.args):
+                return None, []                      # a display local to this call
+            return self.container(v, d, depth + 1)
+        if isinstance(e, ast.Attribute):
+            return dotted(e) or short(e, 60), []
+        if isinstance(e, ast.Subscript):
+            c, keys = self.container(e.value, nid, depth + 1)
+            return c, keys + [(e.slice, nid)]
+        if isinstance(e, ast.Call) and isinstance(e.func, ast.Attribute) and e.func.attr in STORE_READERS and e.args:
+            c, keys = self.container(e.func.value, nid, depth + 1)
+            return c, keys + [(e.args[0], nid)]
+        raise UnknownIdiom('%s: cannot read which store %s denotes' % (self.f.qual, short(e, 60)))
+
+    def key_deps(self, keys) -> frozenset:
+        out: Set[str] = set()
+        for k, nid in keys:
+            out |= self.deps(k, nid)
+        return frozenset(out)
+
+    # -- where a returned value comes from ----------------------------------------
+
+    def origins(self, e, nid: int, seen=frozenset(), depth=0) -> List[tuple]:
+        """[('fresh', node) | ('read', node, container, keys) | ('helper', node, Func, roles) | ('none', node)]"""
+        if isinstance(e, ast.Constant) and e.value is None:
+            return [('none', e)]
+        if isinstance(e, ast.NamedExpr):
+            return self.origins(e.value, nid, seen, depth)
+        if isinstance(e, ast.IfExp):
+            return self.origins(e.body, nid, seen, depth) + self.origins(e.orelse, nid, seen, depth)
+        if isinstance(e, ast.BoolOp):
+            return [o for v in e.values for o in self.origins(v, nid, seen, depth)]
+        if isinstance(e, ast.Name):
+            out = []
+            for d, v in self.name_defs(e, nid):
+                if d == H.ENTRY_DEF or v is None:
+                    raise UnknownIdiom('%s: cannot read what %s holds when it is returned as the converter' % (self.f.qual, e.id))
+                if (d, e.id) in seen:
+                    continue
+                out.extend(self.origins(v, d, seen | {(d, e.id)}, depth))
+            return out
+        if isinstance(e, ast.Subscript) and isinstance(e.ctx, ast.Load):
+            c, keys = self.container(e, nid)
+            if c is not None:
+                return [('read', e, c, keys)]
+            raise UnknownIdiom('%s: %s reads a container local to the call' % (self.f.qual, short(e, 60)))
+        if isinstance(e, ast.Attribute):
+            return [('read', e, dotted(e) or short(e, 60), [])]
+        if isinstance(e, ast.Call):
+            fd = self.deps(e.func, nid) if isinstance(e.func, ast.Name) else frozenset()
+            if fd == frozenset([K_ID]):
+                return [('fresh', e)]
+            q = self.p.resolve_expr(self.f.module, e.func, self.f)
+            if q == 'builtins.eval':
+                ns: Set[str] = set()
+                for a in e.args[1:] + [k.value for k in e.keywords]:
+                    ns |= self.deps(a, nid)
+                if K_ID in ns:
+                    return [('fresh', e)]
+                raise UnknownIdiom('%s: %s evaluates the constructor text in a namespace that is not read as holding the class of this call'
+                                   % (self.f.qual, short(e, 70)))
+            if isinstance(e.func, ast.Attribute) and e.func.attr in STORE_READERS and e.args:
+                c, keys = self.container(e, nid)
+                if c is not None:
+                    out = [('read', e, c, keys)]
+                    for extra in e.args[1:]:
+                        out.extend(self.origins(extra, nid, seen, depth))
+                    return out
+            t = self.p.callee(self.f, e)
+            if isinstance(t, Func) and depth < 2:
+                prm = [x for x in t.params()]
+                if prm and prm[0] in ('self', 'cls') and isinstance(e.func, ast.Attribute):
+                    prm = prm[1:]
+                roles: Dict[str, frozenset] = {}
+                if any(isinstance(a, ast.Starred) for a in e.args) or any(k.arg is None for k in e.keywords):
+                    raise UnknownIdiom('%s: %s passes the class through */** arguments' % (self.f.qual, short(e, 70)))
+                for i, a in enumerate(e.args):
+                    if i < len(prm):
+                        roles[prm[i]] = self.deps(a, nid)
+                for k in e.keywords:
+                    roles[k.arg] = self.deps(k.value, nid)
+                if any(roles.values()):
+                    return [('helper', e, t, roles)]
+            raise UnknownIdiom('%s: cannot read how %s builds the converter it returns' % (self.f.qual, short(e, 70)))
+        raise UnknownIdiom('%s: cannot read where the returned converter %s comes from' % (self.f.qual, short(e, 70)))
+
+    def returns(self):
+        seen: Set[int] = set()
+        for n in self.cfg.live_nodes():
+            if n.kind == 'stmt' and isinstance(n.ast, ast.Return) and id(n.ast) not in seen:
+                seen.add(id(n.ast))
+                yield n
+        for g in self.f.nested.values():
+            raise UnknownIdiom('%s: nested function %s not modelled' % (self.f.qual, g.name))
+
+    def writes(self):
+        """[(node, container, keys, value expr, nid)] for `C[k] = v` and C.setdefault(k, v) in this function."""
+        out = []
+        seen: Set[int] = set()
+        for n in self.cfg.live_nodes():
+            if n.copy or n.kind != 'stmt':
+                continue
+            a = n.ast
+            if isinstance(a, ast.Assign):
+                for t in a.targets:
+                    if isinstance(t, ast.Subscript):
+                        c, keys = self.container(t, n.id)
+                        if c is not None:
+                            out.append((a, c, keys, a.value, n.id))
+            for e in n.walk():
+                if isinstance(e, ast.Call) and isinstance(e.func, ast.Attribute) and e.func.attr == 'setdefault' and len(e.args) == 2 \
+                        and id(e) not in seen:
+                    seen.add(id(e))
+                    c, keys = self.container(e, n.id)
+                    if c is not None:
+                        out.append((e, c, keys, e.args[1], n.id))
+        return out
+
+
+def _outside_writes(p, router: Class, inside: Set[str], attr: str) -> Optional[str]:
+    """A write to self.<attr> in a method outside `inside` that is not a reset to an empty container."""
+    for m in router.methods.values():
+        for g in [m] + list(m.nested.values()):
+            if g.qual in inside:
+                continue
+            for n in walk_self(g.node):
+                tgt = None
+                if isinstance(n, (ast.Assign, ast.AnnAssign, ast.AugAssign)):
+                    for t in (n.targets if isinstance(n, ast.Assign) else [n.target]):
+                        base = t.value if isinstance(t, ast.Subscript) else t
+                        if _self_attr(base) == attr:
+                            v = n.value
+                            empty = isinstance(t, ast.Attribute) and not isinstance(n, ast.AugAssign) and (
+                                v is None or (isinstance(v, (ast.Dict, ast.List)) and not (getattr(v, 'keys', None) or getattr(v, 'elts', None)))
+                                or (isinstance(v, ast.Call) and not v.args and not v.keywords))
+                            if not empty:
+                                tgt = n
+                elif isinstance(n, ast.Call) and isinstance(n.func, ast.Attribute) and n.func.attr in LIST_MUTATORS \
+                        and n.func.attr != 'clear' and _self_attr(n.func.value) == attr:
+                    tgt = n
+                if tgt is not None:
+                    return '%s: %s' % (g.qual, short(tgt, 70))
+    return None
+
+
+def r19_converter_provenance(run):
+    """"Converters may veto a match" / "exactly the matched route's field
+    values": the converter a field is checked with is an instance of the class
+    registered under the name the TEMPLATE gives.  _instantiate_converter is
+    handed that class; every object it returns must, on every path, be built
+    from the `klass` of this very call -- `klass(...)`, or eval() of the
+    constructor text in a namespace holding `klass` -- through same-class
+    helpers if need be.  An object read back from a store that outlives the call
+    (memo dict, attribute) qualifies only when the key it is read (and was
+    written) under determines both the class OBJECT and the argument text:
+    `klass` itself as the key / a tuple element / an outer key / id(klass).  Its
+    __name__, __qualname__, repr(), or the constructor text rendered from them
+    do not determine it (any class with a convert() method may be registered,
+    under any name; two plug-ins may both call theirs `Converter`).  A memo on
+    (klass, argstr), or functools.lru_cache on the method, is silent.
+    W: converters hex -> hexfields.Converter, slug -> slugs.Converter; routes
+    /tags/{tag:slug} then /colors/{rgb:hex}: find('/colors/zz') matches (the
+    slug instance answers) instead of None and find('/colors/ff') yields 'ff'
+    instead of 255."""
+    p = run.project
+    f = p.func(INSTANTIATE)
+    router = p.cls(ROUTER)
+    run.use(f)
+    prms = [x for x in f.params() if x not in ('self', 'cls')]
+    a = f.node.args
+    if len(prms) != 2 or a.vararg or a.kwarg or a.kwonlyargs:
+        raise UnknownIdiom('%s no longer takes exactly (class, argument text)' % f.qual)
+    W = ("options.converters['hex'] = hexfields.Converter, ['slug'] = slugs.Converter (same __name__); routes /tags/{tag:slug} then "
+         "/colors/{rgb:hex}: find('/colors/zz') matches instead of None, find('/colors/ff') yields rgb='ff' instead of 255")
+    for d in f.node.decorator_list:
+        q = p.resolve_expr(f.module, d.func if isinstance(d, ast.Call) else d, None)
+        if q in MEMO_DECORATORS:
+            run.ok('%s memoises on every argument of the call, the class object included' % q.rsplit('.', 1)[-1], f.loc(d), d)
+        else:
+            raise UnknownIdiom('%s: decorator %s not modelled' % (f.qual, short(d, 60)))
+    inside: Set[str] = set()
+    stores: Dict[str, ast.AST] = {}
+
+    def need(F: '_ConvFlow', keys) -> Tuple[Optional[bool], str]:
+        s = F.key_deps(keys)
+        has_args = any(A_ID in r for r in F.roles.values())
+        if K_ID in s and (A_ID in s or not has_args):
+            return True, ''
+        if UNREAD in s:
+            return None, 'key %s not readable' % ', '.join(short(k, 40) for k, _ in keys)
+        if K_ID not in s:
+            how = ('only text computed from the class (%s)' % 'its name / repr') if K_TEXT in s else 'nothing of the class'
+            return False, 'the key holds %s: classes registered under different converter names that agree in it share one instance' % how
+        return False, 'the key does not hold the argument text: {a:int(2)} and {b:int(3)} share one instance'
+
+    def judge(F: '_ConvFlow', depth: int):
+        inside.add(F.f.qual)
+        run.use_cfg(F.cfg)
+        if not any(K_ID in r for r in F.roles.values()):
+            raise UnknownIdiom('%s is not handed the converter class itself' % F.f.qual)
+        n_ret = 0
+        for rn in F.returns():
+            if rn.ast.value is None:
+                continue
+            for o in F.origins(rn.ast.value, rn.id, depth=depth):
+                n_ret += 1
+                kind, node = o[0], o[1]
+                if kind == 'none':
+                    n_ret -= 1
+                    continue
+                if kind == 'fresh':
+                    run.ok('the returned converter is constructed from the class handed to this call', F.f.loc(node), node)
+                elif kind == 'helper':
+                    judge(_ConvFlow(p, o[2], o[3]), depth + 1)
+                else:
+                    _, _, c, keys = o
+                    stores.setdefault(c, node)
+                    ok, why = need(F, keys)
+                    if ok is None:
+                        raise UnknownIdiom('%s: %s: %s' % (F.f.qual, short(node, 60), why))
+                    run.check(ok, 'a converter read back from %s is the one built for this call\'s class and argument text: the key '
+                              'determines the class object and the arguments' % c, F.f,
+                              '%s [key %s]' % (short(node, 70), ' , '.join(short(_key_def(F, k, n_), 60) for k, n_ in keys) or '<none>'),
+                              where=F.f.loc(node), witness=[why] if why else None, runtime_witness=W)
+        if not n_ret:
+            raise UnknownIdiom('%s returns no converter' % F.f.qual)
+        for node, c, keys, val, nid in F.writes():
+            if c not in stores:
+                continue
+            if (isinstance(val, ast.Dict) and not val.keys) or (isinstance(val, ast.Call) and isinstance(val.func, ast.Name)
+                                                                and val.func.id == 'dict' and not val.args and not val.keywords):
+                continue     # an empty inner level of a nested store; the full key is judged where the converter is filed / read
+            ok, why = need(F, keys)
+            if ok is None:
+                raise UnknownIdiom('%s: %s: %s' % (F.f.qual, short(node, 60), why))
+            for x in (F.origins(val, nid, depth=depth) if ok else ()):
+                if x[0] == 'helper':
+                    judge(_ConvFlow(p, x[2], x[3]), depth + 1)
+                elif x[0] != 'fresh' and not (x[0] == 'read' and x[2] == c):
+                    raise UnknownIdiom('%s: value stored by %s is not read as built from the class' % (F.f.qual, short(node, 60)))
+            run.check(ok, 'a converter is filed in %s under a key that determines the class object and the argument text it was built from' % c,
+                      F.f, '%s [key %s]' % (short(node, 70), ' , '.join(short(_key_def(F, k, n_), 60) for k, n_ in keys)),
+                      where=F.f.loc(node), witness=[why] if why else None, runtime_witness=W)
+
+    judge(_ConvFlow(p, f, {prms[0]: frozenset([K_ID]), prms[1]: frozenset([A_ID])}), 0)
+    for c in sorted(stores):
+        if c.startswith('self.') and c.count('.') == 1:
+            w = _outside_writes(p, router, inside, c.split('.', 1)[1])
+            if w:
+                raise UnknownIdiom('%s is also written outside the instantiation (%s): not modelled' % (c, w))
+        else:
+            raise UnknownIdiom('%s: converter store %s is not an attribute of the router: its other writers are not read' % (f.qual, c))
+    run.extra['c01_converter_stores'] = sorted(stores)
+
+
+def _key_def(F: '_ConvFlow', k, nid: int):
+    """The key expression, a local bound once replaced by its definition (for the violation key / witness)."""
+    if isinstance(k, ast.Name):
+        defs = F.name_defs(k, nid)
+        if len(defs) == 1 and defs[0][1] is not None:
+            return defs[0][1]
+    return k
+
+
 def check(run):
     run.assume('a rejection is an exception in the E5 summary of add_route (explicit raises, closed over resolved callees); '
                'other exceptions (IndexError, MemoryError, ...) are internal errors, not rejections')
@@ -4342,3 +4748,4 @@ def check(run):
     run.rule('R9', r9_rendered_text, 'template-derived text reaches a line of the generated source only validated, converted (!r), or as int / generated name', floor=28)
     run.rule('R17', r17_payload_group, 'the attributes of a node that find() answers with are stored together on every path of add_route that stores one of them', floor=6)
     run.rule('R18', r18_field_pattern_classes, 'each group of the field-expression pattern excludes exactly the delimiters that end it (text the pattern does not match silently becomes a literal segment)', floor=3)
+    run.rule('R19', r19_converter_provenance, 'the converter instance a field is checked with is built from the class handed to that very _instantiate_converter call; a memo qualifies only under a key that determines the class object and the argument text', floor=2)
